@@ -332,13 +332,46 @@ class Interp:
             return f_all, r_all
         if isinstance(stmt, (ast.With, ast.AsyncWith)):
             return self.run_block(stmt.body, [st])
+        if isinstance(stmt, ast.For) and isinstance(stmt.iter, (ast.Tuple, ast.List)) and stmt.iter.elts and all(self._cont(e) for e in stmt.iter.elts) and isinstance(stmt.target, ast.Name):
+            # `for entries in (self._a, self._b, ...): <body>`: the body once per container, the loop variable naming it
+            cur, returned = [st], []
+            saved = self.cont_alias.get(stmt.target.id)
+            for e in stmt.iter.elts:
+                self.cont_alias[stmt.target.id] = self._cont(e)  # type: ignore[assignment]
+                nxt: list[St] = []
+                for s0 in cur:
+                    f, r = self.run_block(stmt.body, [s0])
+                    nxt += f
+                    returned += r
+                cur = _dedup(nxt)
+            if saved is None:
+                self.cont_alias.pop(stmt.target.id, None)
+            else:
+                self.cont_alias[stmt.target.id] = saved
+            return cur, returned
         if isinstance(stmt, ast.For):
             c = self._clear_loop(stmt)
             if c:
                 return [self._clear(st, c)], []
+            self._scan_expr(stmt.iter, st)
             f1, r1 = self.run_block(stmt.body, [st])
             return _dedup([st, *f1]), r1
         if isinstance(stmt, ast.Try):
+            # `try: v = self.cont[key]  except KeyError: <absent arm>`: membership decides which arm runs
+            reads = [x for b_ in stmt.body for x in ast.walk(b_) if isinstance(x, ast.Subscript) and isinstance(x.ctx, ast.Load) and self._cont(x.value) and isinstance(x.slice, ast.Name)]
+            catches = [h for h in stmt.handlers if h.type is None or any(w in norm(h.type) for w in ("KeyError", "LookupError", "Exception"))]
+            if reads and catches and not stmt.orelse and not stmt.finalbody:
+                c, k = self._cont(reads[0].value), reads[0].slice.id
+                v = st.m(k, c)  # type: ignore[arg-type]
+                outs_f: list[St] = []
+                outs_r: list[St] = []
+                for present, s0 in ([(v, st)] if v is not None else [(True, st.setm(k, c, True)), (False, st.setm(k, c, False))]):  # type: ignore[arg-type]
+                    f, r = self.run_block(stmt.body if present else catches[0].body, [s0])
+                    outs_f += f
+                    outs_r += r
+                return _dedup(outs_f), outs_r
+            if stmt.handlers and any(self._cont(x.value) for b_ in stmt.body for x in ast.walk(b_) if isinstance(x, ast.Subscript)):
+                self.unmodelled.append("try/except around a container access")
             f, r = self.run_block(stmt.body, [st])
             return f, r
         if isinstance(stmt, ast.Assign) and len(stmt.targets) == 1:
@@ -452,6 +485,8 @@ class Interp:
             if isinstance(x, ast.Call) and dotted(x.func) not in self.READERS and not (isinstance(x.func, ast.Attribute) and self._cont(x.func.value)):
                 if any(self._cont(a) for a in [*x.args, *[k.value for k in x.keywords]]):
                     self.unmodelled.append(norm(x))
+            if isinstance(x, (ast.Tuple, ast.List, ast.Set, ast.Dict)) and any(self._cont(e) for e in (x.elts if not isinstance(x, ast.Dict) else x.values)):
+                self.unmodelled.append(f"container placed in a literal: {norm(x)[:50]}")
 
     def _clear_loop(self, stmt: ast.For) -> str | None:
         # for k in <keys of X>: del self.X[k]
@@ -853,6 +888,8 @@ def rule_stores(ctx: Ctx) -> None:
                     continue
                 if isinstance(c.func, ast.Attribute) and c.func.attr in ("dump", "write", "write_bytes"):
                     return True
+                if isinstance(c.func, ast.Name) and any(isinstance(x, ast.Attribute) and x.attr in ("dump", "write", "write_bytes") for x in ast.walk(Defs(dp).resolve(c.func))):
+                    return True  # `dumper = cloudpickle.dump if ... else pickle.dump; dumper(value, f)`
                 for site in ctx.cg.sites.get(dp.qualname, []):
                     if site.node is c and any(ctx.effects.has(callee.qualname, FS_WRITE) for callee in site.callees):
                         return True
@@ -883,6 +920,24 @@ def rule_disk_levels(ctx: Ctx) -> None:
 
 
 ITERATING = {"list", "tuple", "set", "frozenset", "sorted", "min", "max", "sum", "iter", "enumerate", "zip", "map", "filter", "any", "all", "reversed"}
+
+
+def rule_containers_bound_once(ctx: Ctx) -> None:
+    """The shared containers (and the lock) are created in the constructor and never replaced: other handles of a shared
+    cache - pickled copies in worker processes - keep referring to the objects created there, so a method that REBINDS
+    `self._cache_dict` (e.g. clear() building fresh containers / a fresh manager) empties only its own handle."""
+    n = 0
+    for cname, fields in SHARED.items():
+        cls = ctx.prog.cls(f"{MOD}.{cname}")
+        for mname, fn in cls.methods.items():
+            if mname in ("__init__", "__setstate__"):
+                continue
+            for a in [a for a in ast.walk(fn.node) if isinstance(a, (ast.Assign, ast.AnnAssign, ast.AugAssign))]:
+                for t in (a.targets if isinstance(a, ast.Assign) else [a.target]):
+                    if _self_attr(t) in [*fields, LOCK]:
+                        n += 1
+                        ctx.add("1-lock", fn, a, False, f"`{norm(a)[:60]}` rebinds `self.{_self_attr(t)}` outside the constructor: other handles of the (shared) cache keep the old object, so they neither see this change nor share later ones", key=f"rebinds {cname}.{mname}.{_self_attr(t)}")
+        ctx.add("1-lock", cls.qualname, cls.loc, True, f"{cname}: containers and lock are bound in the constructor only ({n} rebinding(s) elsewhere)", key=f"bound-once {cname}")
 
 
 def rule_proxy_iteration(ctx: Ctx) -> None:
@@ -934,7 +989,7 @@ def rule_proxy_iteration(ctx: Ctx) -> None:
 
 
 def check(ctx: Ctx) -> None:
-    for rule in (rule_disk_levels, rule_stores, rule_lock, rule_invariant, rule_policy, rule_retire, rule_division, rule_pickle_guard, rule_disk_bound, rule_negative_slice, rule_proxy_iteration):
+    for rule in (rule_disk_levels, rule_stores, rule_lock, rule_invariant, rule_policy, rule_retire, rule_division, rule_pickle_guard, rule_disk_bound, rule_negative_slice, rule_containers_bound_once, rule_proxy_iteration):
         ctx.run(rule)
 
 
